@@ -46,6 +46,29 @@ fun HasNode(rd int, k int, cc int) bool := k > 0 && (HasNode(rd, k-1, cc) || IsH
 pred Malformed(rd int, i int, cc int) := HasNode(rd, i, cc) && MalformedLine(RdLine(rd, i), cc)
 
 // ---------------------------------------------------------------------------------------------
+// What a well-formed file denotes (C04), written from the property statement and the documented syntax:
+// a record starts at every heading line and is named by the heading's text without its layout / ':' / quotes;
+// under it, every well-formed entry line contributes, in order, (name, value): the name is the text before the last
+// blank, trimmed of layout, list dash, quotes and ':'; the value is the number after it (strconv.ParseFloat: the
+// correctly rounded float64, assumed). Blank lines, comment lines and notes contribute nothing.
+// RecHdr / RecN / RecName / RecVal (rd, k, cc): the record that is open after the first k lines.
+// HeadCount: number of headings among the first k lines. evLine: callback event -> number of lines read when raised.
+// ---------------------------------------------------------------------------------------------
+ghost evLine seq[int]
+fun GoodEntry(l string, cc int) bool opaque := IsEntryPos(l, cc) && LastSep(Trimmed(l)) != -1 && PfOk(QtyTok(l))
+fun EntryName(l string) string := let t := Trimmed(l) in let n := t[0:LastSep(t)] in n[TrimLo(n, "\t \n:\"-"):TrimHi(n, "\t \n:\"-")]
+fun EntryVal(l string) float64 := PfVal(QtyTok(l))
+fun RecHdr(rd int, k int, cc int) string := if k <= 0 then "" else (if IsHeadingLine(RdLine(rd, k-1), cc) then Trimmed(RdLine(rd, k-1)) else RecHdr(rd, k-1, cc))
+fun RecN(rd int, k int, cc int) int := if k <= 0 then 0 else (if IsHeadingLine(RdLine(rd, k-1), cc) then 0 else (if HasNode(rd, k-1, cc) && GoodEntry(RdLine(rd, k-1), cc) then RecN(rd, k-1, cc) + 1 else RecN(rd, k-1, cc)))
+fun RecName(rd int, k int, cc int, j int) string := if k <= 0 then "" else (if IsHeadingLine(RdLine(rd, k-1), cc) then "" else (if HasNode(rd, k-1, cc) && GoodEntry(RdLine(rd, k-1), cc) && j == RecN(rd, k-1, cc) then EntryName(RdLine(rd, k-1)) else RecName(rd, k-1, cc, j)))
+fun RecVal(rd int, k int, cc int, j int) float64 := if k <= 0 then 0.0 else (if IsHeadingLine(RdLine(rd, k-1), cc) then 0.0 else (if HasNode(rd, k-1, cc) && GoodEntry(RdLine(rd, k-1), cc) && j == RecN(rd, k-1, cc) then EntryVal(RdLine(rd, k-1)) else RecVal(rd, k-1, cc, j)))
+fun HeadCount(rd int, k int, cc int) int := if k <= 0 then 0 else HeadCount(rd, k-1, cc) + (if IsHeadingLine(RdLine(rd, k-1), cc) then 1 else 0)
+// event j reports the record that was open after evLine[j] lines
+pred EventIsRecord(j int, rd int, cc int) :=
+     cbHeader[j] == RecHdr(rd, evLine[j], cc) && cbNElems[j] == RecN(rd, evLine[j], cc)
+  && (forall i int :: {cbElems[j][i]} 0 <= i && i < cbNElems[j] ==> cbElems[j][i].Name == RecName(rd, evLine[j], cc, i) && cbElems[j][i].Value == RecVal(rd, evLine[j], cc, i))
+
+// ---------------------------------------------------------------------------------------------
 // What any parse callback does to the trace. "modifies *": a callback may change anything it can reach.
 // The two free clauses state what it cannot reach (A-PRIV, a consequence of memory safety): objects
 // allocated by the running parser call that were not passed to it, and the parser's private scanner.
@@ -57,6 +80,7 @@ pred CbEvent(n *shared.ParserNode, err error, stop bool, cbError error) :=
   && (typeis(err, "*parser.ErrorBadSyntax") ==> cbLineNo == store(old(cbLineNo), old(cbLen), old(cellat(parser.ErrorBadSyntax, payload(err)).LineNumber)) && cbLine == store(old(cbLine), old(cbLen), old(cellat(parser.ErrorBadSyntax, payload(err)).Line)))
   && (typeis(err, "*parser.ErrorConversion") ==> cbLineNo == store(old(cbLineNo), old(cbLen), old(cellat(parser.ErrorConversion, payload(err)).LineNumber)) && cbLine == store(old(cbLine), old(cbLen), old(cellat(parser.ErrorConversion, payload(err)).Line)))
   && (err == nil ==> cbLineNo == old(cbLineNo) && cbLine == old(cbLine))
+  && (n != nil ==> cbHeader == store(old(cbHeader), old(cbLen), old(n.Header)) && cbNElems == store(old(cbNElems), old(cbLen), old(len(n.Elements))) && cbElems == store(old(cbElems), old(cbLen), old(elems(n.Elements))))
 
 // what a callback cannot reach (A-PRIV, a consequence of memory safety): objects allocated by the running
 // parser call that were not passed to it
@@ -149,6 +173,40 @@ func ParseStreamCallback variant stoponerr
     invariant @clean forall i int :: {RdLine(rd, i)} 0 <= i && i < lineNumber ==> !Malformed(rd, i, cc)
     invariant @noerr forall j int :: {cbErr[j]} old(cbLen) <= j && j < cbLen ==> cbErr[j] == nil
   }
+
+// ---------------------------------------------------------------------------------------------
+// C04: with a stop-on-error callback, a successful parse has delivered exactly one record event per heading, in file
+// order (event number m reports the m-th heading's record, complete), each carrying the heading's text and exactly
+// the well-formed entries under it, in order, with their names and values; the last record is not lost.
+// ---------------------------------------------------------------------------------------------
+func ParseStreamCallback variant records
+  funcparam callback parser.StopOnErr
+  dyncall 1 parser.StopOnErr
+  dyncall 2 parser.StopOnErr
+  dyncall 3 parser.StopOnErr
+  dyncall 4 parser.StopOnErr
+  props C04 C08
+  modifies *
+  modifies ghost(cbLen, cbErr, cbNode, cbStop, cbRet, cbLineNo, cbLine, cbHeader, cbElems, cbNElems, scRd, scPos, privLo, evOf, evLine)
+  ensures @one-record-per-heading [C04] result == nil ==> cbLen - old(cbLen) == HeadCount(rd, RdN(rd), cc)
+  ensures @records [C04] result == nil ==> (forall j int :: {cbHeader[j]} old(cbLen) <= j && j < cbLen ==> cbErr[j] == nil && EventIsRecord(j, rd, cc) && 0 < evLine[j] && evLine[j] <= RdN(rd) && HeadCount(rd, evLine[j], cc) == j - old(cbLen) + 1 && (evLine[j] == RdN(rd) || IsHeadingLine(RdLine(rd, evLine[j]), cc)))
+  loop 1 {
+    invariant @clean forall i int :: {RdLine(rd, i)} 0 <= i && i < lineNumber ==> !Malformed(rd, i, cc)
+    invariant @noerr forall j int :: {cbErr[j]} old(cbLen) <= j && j < cbLen ==> cbErr[j] == nil
+    invariant @own node != nil ==> arr(node.Elements) >= privLo && (node.Metadata != nil ==> ref(node.Metadata) >= privLo && arr(*node.Metadata) >= privLo)
+    invariant @rec-hdr node != nil ==> node.Header == RecHdr(rd, lineNumber, cc) && len(node.Elements) == RecN(rd, lineNumber, cc)
+    invariant @rec-elems node != nil ==> (forall i int :: {node.Elements[i]} 0 <= i && i < len(node.Elements) ==> node.Elements[i].Name == RecName(rd, lineNumber, cc, i) && node.Elements[i].Value == RecVal(rd, lineNumber, cc, i))
+    invariant @rec-count cbLen - old(cbLen) == HeadCount(rd, lineNumber, cc) - (if node != nil then 1 else 0)
+    invariant @rec-events forall j int :: {cbHeader[j]} old(cbLen) <= j && j < cbLen ==> EventIsRecord(j, rd, cc) && 0 < evLine[j] && evLine[j] < lineNumber && HeadCount(rd, evLine[j], cc) == j - old(cbLen) + 1 && IsHeadingLine(RdLine(rd, evLine[j]), cc)
+  }
+  ghost after call 1 NewScanner { unfold HeadCount(rd, 0, cc) }
+  ghost before call 1 Trim {
+    unfold RecHdr(rd, lineNumber, cc); unfold RecN(rd, lineNumber, cc); unfold HeadCount(rd, lineNumber, cc); unfold GoodEntry(line, cc)
+    unfold forall i int :: RecName(rd, lineNumber, cc, i)
+    unfold forall i int :: RecVal(rd, lineNumber, cc, i)
+  }
+  ghost before dyncall 1 { set evLine := store(evLine, cbLen, lineNumber - 1) }
+  ghost before dyncall 4 { set evLine := store(evLine, cbLen, lineNumber) }
 
 // ---------------------------------------------------------------------------------------------
 // ParseStreamCallback specialised by the callback of utils.LoadDatabaseFromStream: the same body, with the
